@@ -282,10 +282,13 @@ prop("C10", level="exploration",
 
 prop("C06", level="exploration",
      stages=[dict(pkg="fullstack", test="TestC06", sub="pause", race=True, vary_gomaxprocs=True,
-                  cases=dict(quick=700, thorough=10000), timeout=3600)],
+                  cases=dict(quick=700, thorough=10000), timeout=3600),
+             # the resume is sent by the requestor's response hook the moment it sees RequestPaused
+             dict(pkg="fullstack", test="TestC06", sub="reactive", race=True, vary_gomaxprocs=True,
+                  cases=dict(quick=200, thorough=3000), timeout=3600)],
      technique="runtime monitoring: differential outcome check (reference model 1) of exchanges paused and resumed on either side via API or hooks at every block index and resume timing, plus a wire-log monitor for data sent while a response is paused; Go race detector",
      level_text=("C02-style cases are run with one pause: requestor API, requestor incoming-block hook, responder API, responder outgoing-block hook, responder "
-                 "request hook (start paused) resumed by API or by an update hook; at a random block index; resumed after quiescence, immediately (retrying "
+                 "request hook (start paused) resumed by API or by an update hook, responder outgoing-block hook resumed by an update the requestor's response hook sends the moment it sees RequestPaused (stage reactive, with a widened window before the executor reports its task finished); at a random block index; resumed after quiescence, immediately (retrying "
                  "until the pause has taken effect) or after a random delay. The outcome must equal the uninterrupted reference outcome exactly, and "
                  "between a RequestPaused message and the accepted unpause the responder must not send metadata or blocks for the request."),
      level_note="Cases are kept out of C02's known-finding classes. Requestor-side resumes with an undrained pre-pause stream are a recorded known finding (protocol limitation), recognised from wire/listener events and the reference load list only.",
@@ -440,4 +443,21 @@ prop("C22", level="fault_enumeration",
      rule=("One evaluation = one (site, side, k) scenario. Non-trivial = the injected panic actually fired; distinct by (site, side, k, size, overlap); "
            "distinct_sets.site_x_side = combinations in which a panic fired."),
      min_nontrivial=dict(quick=60, thorough=600),
+     assumptions=_fs_assume)
+
+prop("C25", level="fault_enumeration",
+     stages=[
+         dict(pkg="fullstack", test="TestC25", sub="responder", race=True, vary_gomaxprocs=True, cases=dict(quick=200, thorough=2500), timeout=3600),
+         dict(pkg="fullstack", test="TestC25", sub="requestor", race=True, vary_gomaxprocs=True, cases=dict(quick=200, thorough=2500), timeout=3600),
+     ],
+     technique="runtime monitoring: fault injection in the in-memory network (one peer's connection stalled indefinitely so its per-peer memory allowance fills / a responder that goes silent mid-response) while healthy peers run hook-, extension-, update- and pause-driven exchanges; oracle: at logical quiescence (no step advancing, stall still in place) every healthy request has completed and equals its reference outcome; mailbox barrier detects a blocked manager goroutine; Go race detector",
+     level_text=("sub responder: a raw peer S sends 1..W+1 requests over DAGs larger than its allowance while the link responder->S is stalled, then performs 0-4 further actions "
+                 "(new requests, cancels, responder-API cancels incl. double cancels, updates, pause/unpause); 1-2 healthy GraphSync peers then run 1-3 requests each "
+                 "(plain / request extension answered by hook / update round trip / hook pause + update-driven unpause). Worker count 2-4, per-peer limit unset or 1..W-1, allowance 2-4 blocks. "
+                 "sub requestor: a requestor has 1..W-1 requests to a raw responder that sends a few valid blocks and goes silent (connection to it optionally stalled), applies 0-4 API actions to them, "
+                 "and runs healthy exchanges with 1-2 real responders. Verdict is taken at logical quiescence, re-confirmed over sustained windows; no wall-clock deadline decides."),
+     level_note="The property's 'within a deadline' is decided as: the system has stopped making steps (quiescent) while the stall persists and a healthy request is unfinished. Two recorded findings cover configurations in which the code does starve other peers.",
+     rule=("One evaluation = one scenario. Non-trivial = (responder sub) the stalled peer actually had a pending reservation when the healthy peers started, and all healthy requests were compared with their reference; "
+           "distinct_sets list the stalled-peer actions and healthy request kinds that occurred."),
+     min_nontrivial=dict(quick=150, thorough=2000),
      assumptions=_fs_assume)
